@@ -181,11 +181,14 @@ def run(tier: str) -> int:
         + "TLC checks PluralByCount, FormatReplacesOnlyPlaceholders, PercentSignsSurvive, TagMsgidWellFormed, FilterMsgidIsText on "
           "the step-wise mechanism (msgid construction, NullTranslations selection, left-to-right scan) against the declarative "
           "requirement, and emits per cell the written message(s) and the required output; every cell is rendered sync+async, "
-          "message/arguments as literals or render variables, autoescape off/on, both quote styles; the three named deviations "
-          "(TruthyCount, PercentCollapse, LookbehindInTag) are model-checked to refute their invariant.")
+          "message/arguments as literals or render variables, autoescape off/on, both quote styles"
+        + ("; the three named deviations (TruthyCount, PercentCollapse, LookbehindInTag) are model-checked to refute their "
+           "invariant." if tier == "thorough" else "."))
     try:
         jobs = _tlc_jobs(tier)
-        devs = [(cfg.split("/")[-1][:-4], "Translate", cfg, {"workers": 1, "timeout": 600}) for cfg in DEVIATIONS]
+        # the named deviations are refuted in the thorough tier only (three more JVMs; the quick tier keeps to one)
+        devs = [(cfg.split("/")[-1][:-4], "Translate", cfg, {"workers": 1, "timeout": 600})
+                for cfg in (DEVIATIONS if tier == "thorough" else ())]
         results = run_many([j[1:] for j in jobs + devs], parallel=4 if tier == "quick" else 6)
     finally:
         cleanup_gen()
